@@ -5,10 +5,42 @@ V = os.path.dirname(os.path.dirname(os.path.abspath(__file__)))
 
 # id: (category, technique, level text, level note, design ref)
 CHECKS = {
+ "C01": ("exploration", "seeded wallet histories + cross-wallet import with snapshot/signature oracle and an exhaustive single-field corruption sweep of every exported file",
+         "Every export produced by the seeded histories is re-imported (same wallet after delete, and another wallet holding 0-2 other keystores) and compared key by key through the public API, every imported key signs; 6+ wrong-passphrase kinds, duplicate import and each single-field corruption of every JSON leaf must be rejected with memory snapshot and logical store dump unchanged. Held = on the histories and corruptions of this run; unauthenticated fields are listed known findings.",
+         "trusts pocec signature verification, hdkeychain for expected keys (checked separately by C18), the db interface for the logical dump; scrypt cost lowered to N=16 for speed",
+         "DESIGN.md §3 C01"),
+ "C02": ("exploration", "restart after every prefix of seeded wallet histories; differential against the running instance, an abstract model of acknowledged operations, next-key prediction and passphrase-behaviour probes",
+         "Each (history, prefix) is executed on the real wallet over the real leveldb store, the store is closed and reopened, and the reopened wallet must equal the running one, the model of acknowledged operations, issue the predicted next keys and answer passphrase probes as before; wrong public passphrases must fail and leave the logical dump unchanged. Held = on the prefixes explored.",
+         "trusts hdkeychain derivation for predicted keys, the harness model of acknowledged operations (30 lines), goleveldb",
+         "DESIGN.md §3 C02"),
+ "C03": ("exploration", "seeded wallet histories with hostile passphrase arguments; success=>current-passphrase oracle, cross-keystore governance probe, and in-memory secret-validity invariant through the H4 inspector after every step",
+         "After every step of every history the H4 inspector (build tag verif) is read under the wallet's own locks: unlocking must be all-or-nothing and a locked wallet must hold no per-address/account/branch private key, no valid key-decrypting key, not the true private crypto key and no passphrase hash; every acknowledged sign/export/delete/passphrase change/create/import/unlock must have been given the current passphrase. Held = on the histories of this run.",
+         "trusts the H4 inspector (read-only, takes the package's own locks), snacl for recovering the true keys from the store",
+         "DESIGN.md §3 C03"),
+ "C04": ("exploration", "byte scan of store files, exports, API-written files and node log for ground-truth secrets after every operation, with positive control",
+         "After every operation of every history (half of the passphrase-bearing calls go through api.Server handlers, logging at trace) all bytes on disk, all exports and the new log bytes are searched for every secret of the history (seed, all BIP32 private keys as scalar and xprv, crypto keys, scrypt master keys, passphrases) in raw/hex/HEX/base64 encodings. Held = none found in this run; a planted secret must be found or the run is inconclusive.",
+         "needles >= 6 bytes; encodings limited to raw, hex, HEX, base64 (whole groups), text; compression inside leveldb tables is not undone (goleveldb default snappy may hide a needle inside a compressed block; the journal and small tables are scanned uncompressed)",
+         "DESIGN.md §3 C04"),
+ "C05": ("exploration", "every issued key signs at every unlocked point of seeded histories; external pocec verification and cross-key/foreign/locked refusal",
+         "At every unlocked step every key ever issued (locked/unlocked, both branches, before/after restart, import, passphrase change) signs fresh digests and messages; signatures are verified outside the wallet under exactly the requested key and must not verify under another issued key; foreign keys and a locked wallet must be refused. Held = on the signatures of this run.",
+         "trusts pocec.Signature.Verify and wire.HashH from mass-core",
+         "DESIGN.md §3 C05"),
+ "C06": ("exploration", "issuance log with set oracle (unique keys make histories unambiguous), sequential histories and 2-8 concurrent issuers, restart and lookup agreement",
+         "Every issued key must be the derived key at the next external index of its keystore, never returned before, with ordinal equal to that index and agreeing lookups before and after restart; concurrent issuance from 2-8 goroutines is recorded and checked as a set per keystore (consecutive, no reuse, no gap). Held = on the issuances of this run.",
+         "trusts hdkeychain derivation (C18); the keeper end-to-end re-indexing of (ordinal,key) file names is covered by C11/C15",
+         "DESIGN.md §3 C06"),
+ "C07": ("exploration", "real massdb.v1 plotter in child processes under the cache-size hook (H1), judged entry by entry against an independent reference construction plus tie-break-independent soundness/completeness and a GetProof/VerifyProof oracle",
+         "Held on 201 (quick) / 499 (thorough) uninterrupted real plots at bit lengths 8-20 and 24 across 33-71 distinct window shapes: every table entry equalled the reference construction and was sound, and every bl-24 challenge was served a verifying proof exactly when the construction has one. Bit lengths >= 26, real low-memory conditions (emulated by the hook) and resumed plots (C10) are not covered.",
+         "trusts mass-core pocutil.P/F/FlipValue and poc.VerifyProof as the definition of the construction; refplot self-checked at start-up",
+         "DESIGN.md §3 C07"),
  "C18": ("exploration", "independent BIP32/BIP39 reference oracle over seeded and searched (leading-zero) seeds/paths/entropies",
          "Every derivation step the run produces (private, public, hardened, normal, after string round trip) is compared with an independent reference validated against the published vectors; seeds and child indices are searched so that short private scalars occur in every run. Held = on all derivations of this run.",
          "trusts internal/ref (self-checked against BIP32 vectors 1-4 and BIP39 English vectors at start-up), Go's crypto/hmac, sha512, math/big",
          "DESIGN.md §3 C18"),
+ "C20": ("exploration", "seeded adversarial-input differential monitoring of the real gateway chain, api.Server handlers over scripted space keepers, and the amount codec, against net/netip, massutil and math/big reference oracles",
+         "Well-formed non-wildcard addresses are compared with an independent net/netip classification through the real gateway chain (403 and zero inner-handler calls for every unconfigured origin; malformed strings must not panic or be admitted beyond a lenient reading); every workspace listed by a real api.Server must match massutil's binding target and address and echo its key/size/ordinal/state; in-range amounts must render as the exact canonical decimal and parse back; the started gRPC listener must be bound to 127.0.0.1. No claim beyond the generated inputs; 127/8 other than 127.0.0.1 is not judged.",
+         "trusts net/netip, mass-core massutil as the definition of binding target and address, math/big; H5 exports (build tag verif) wrap the unexported gateway functions",
+         "DESIGN.md §3 C20"),
 }
 PENDING = {}
 
